@@ -755,7 +755,10 @@ def rule_dispatch(ctx):
     fns = [f for f in F.find_fns(name="from_batch_with_leaf_size", krate="linfa_nn") if (f["d"].get("self_adt") or "").endswith("CommonNearestNeighbour")]
     if not fns:
         res.missing_anchor("<CommonNearestNeighbour as NearestNeighbour>::from_batch_with_leaf_size")
-    for fn in fns:
+    # `from_batch` is a provided method of the trait (it calls from_batch_with_leaf_size); an impl that writes its own is a
+    # second dispatcher
+    extra = [f for f in F.find_fns(name="from_batch", krate="linfa_nn") if (f["d"].get("self_adt") or "").endswith("CommonNearestNeighbour")]
+    for fn in fns + extra:
         c = fn["crate"]
         key = fn_key(fn)
         n = 0
@@ -786,12 +789,52 @@ def rule_dispatch(ctx):
                     res.ok()
                 else:
                     res.violate("%s : arm-builds-other-kind:%s" % (key, vname), "the `%s` arm builds a `%s` index: selecting one kind silently gives another" % (vname, sorted(built)[0]), fn_loc(fn, a["body"].get("ln")))
-        if n < 3:
+        if n < 3 and fn in fns:
             res.missing_anchor("arms of the CommonNearestNeighbour dispatcher (found %d)" % n)
     return res.finish(3)
+
+
+def rule_capacity(ctx):
+    """'k larger than the number of points returns all points': the requested count is any usize.  Memory reserved up
+    front for the answer is sized by what can be returned (the number of points), never by the requested count itself -
+    `with_capacity(k)` aborts with a capacity overflow for the very requests the property speaks about."""
+    res = RuleResult("R-C07-capacity", "no allocation in linfa-nn is sized by a caller-supplied count alone (a usize parameter not bounded by a `.min(..)`)")
+    F = ctx.facts()
+    n = 0
+    for fn in nn_fns(F):
+        c = fn["crate"]
+        r = Render(c)
+        key = fn_key(fn)
+        params = {}
+        for p_, ty in zip(fn["params"], fn["inputs"]):
+            if ty.strip() == "usize":
+                for b in pat_bindings(p_):
+                    params[b["local"]] = b["name"]
+        for y in walk(fn["body"]):
+            args = None
+            if y.get("k") == "Call" and strip(y["f"]).get("k") == "Path":
+                d = c.dfn(strip(y["f"]).get("def")) or {}
+                if d.get("name") in ("with_capacity", "with_capacity_in") and d.get("krate") in ("alloc", "std", "core", "hashbrown") and len(y["args"]) >= 1:
+                    args = y["args"][:1]
+            elif y.get("k") == "MethodCall" and y["name"] in ("reserve", "reserve_exact", "try_reserve") and (c.dfn(y.get("def")) or {}).get("krate") in ("alloc", "std", "core", "hashbrown"):
+                args = y["args"][:1]
+            if not args:
+                continue
+            n += 1
+            res.instance("%s : `%s`" % (key, r.e(y)[:50]))
+            a = args[0]
+            uses = [z for z in walk(a) if z.get("k") == "Path" and z.get("local") in params]
+            bounded = any(z.get("k") == "MethodCall" and z["name"] in ("min", "clamp") for z in walk(a))
+            if uses and not bounded:
+                res.violate("%s : allocation-sized-by-requested-count:%s" % (key, params[uses[0]["local"]]), "`%s` reserves memory for `%s` elements, a count the caller chooses freely: a request for more neighbours than there are points (the property's own case, up to usize::MAX) aborts instead of returning all points" % (r.e(y)[:50], params[uses[0]["local"]]), fn_loc(fn, y.get("ln")))
+            else:
+                res.ok()
+    if n < 1:
+        res.missing_anchor("up-front allocations in linfa-nn (found %d)" % n)
+    return res.finish(1)
 
 
 def rules(tier):
     from . import precision
     return [rule_unit, rule_sib, rule_edge, rule_degree, rule_memorder, rule_cover, rule_direct,
-            precision.make_rule("R-C07-precision", lambda f: f["d"]["krate"] == "linfa_nn", 30, "linfa-nn"), rule_noint, rule_dispatch]
+            precision.make_rule("R-C07-precision", lambda f: f["d"]["krate"] == "linfa_nn", 30, "linfa-nn"), rule_noint, rule_dispatch, rule_capacity]
